@@ -5,11 +5,15 @@
 package run
 
 import (
+	"context"
 	"fmt"
+	"github.com/saucelabs/forwarder/internal/zzverif/world"
 	"net/http"
+	"net/url"
 	"sort"
 	"strings"
 	"testing"
+	"time"
 
 	"github.com/saucelabs/forwarder"
 	"github.com/saucelabs/forwarder/header"
@@ -156,8 +160,8 @@ func initialMaps() []http.Header {
 		{"X-A": {"1", "2"}},
 		{"X-A": {"1"}, "X-Ab": {"3"}},
 		{"Content-Type": {"t"}, "X-A": {"1", "2"}, "X-Ab": {"3"}, "Y": {"y"}},
-		{"x-a": {"1"}},                        // spelling left behind by an earlier %x-a
-		{"x-a": {"1"}, "X-A": {"2"}},          // names differing only in case
+		{"x-a": {"1"}},                         // spelling left behind by an earlier %x-a
+		{"x-a": {"1"}, "X-A": {"2"}},           // names differing only in case
 		{"X-AB": {"3"}, "Content-Type": {"t"}}, // non-canonical upper-case spelling
 	}
 }
@@ -365,24 +369,37 @@ func TestC16(t *testing.T) {
 			var rs []refRule
 			n := x.ChooseFree(label+"-len", 3)
 			for i := 0; i < n; i++ {
-				ri := []int{0, 4, 6, 9, 2}[x.ChooseFree(fmt.Sprintf("%s-rule%d", label, i), 5)]
+				ri := []int{0, 4, 6, 9, 2, 12}[x.ChooseFree(fmt.Sprintf("%s-rule%d", label, i), 6)]
 				hs = append(hs, parsed[ri])
 				rs = append(rs, refs[ri])
 			}
 			return hs, rs
 		}
-		c := &command{httpProxyConfig: forwarder.DefaultHTTPProxyConfig()}
+		c := &command{httpProxyConfig: forwarder.DefaultHTTPProxyConfig(), kerberosConfig: &forwarder.KerberosConfig{}}
 		var rq, rc, rr []refRule
 		c.requestHeaders, rq = pick("request")
 		c.connectHeaders, rc = pick("connect")
 		c.responseHeaders, rr = pick("response")
 		c.configureHeadersModifiers()
-		kind := x.ChooseFree("kind", 5)
+		kind := x.ChooseFree("kind", 6)
 		base := func() http.Header { return http.Header{"X-A": {"0"}, "X-Ab": {"3"}} }
 		hm := base()
 		ref := refFrom(hm)
 		var rules []refRule
 		switch kind {
+		case 5: // the header of the CONNECT this proxy itself sends to an upstream proxy: the connect rules on an empty header
+			tr := &http.Transport{}
+			c.configureTransportProxy(tr, nil)
+			hm = http.Header{}
+			ref = refFrom(hm)
+			rules = rc
+			if tr.GetProxyConnectHeader != nil {
+				h, err := tr.GetProxyConnectHeader(context.Background(), &url.URL{Scheme: "http", Host: "up.test:8080"}, "origin.test:443")
+				if err != nil {
+					x.Failf("dispatch/error", "GetProxyConnectHeader: %v", err)
+				}
+				hm = h
+			}
 		case 0, 1: // request GET / CONNECT
 			m := "GET"
 			rules = rq
@@ -419,6 +436,84 @@ func TestC16(t *testing.T) {
 			x.Failf("dispatch/kind", "kind %d request-rules %v connect-rules %v response-rules %v: %s (map %v)", kind, rq, rc, rr, d, hm)
 		}
 		x.Outcome(fmt.Sprintf("kind%d/%d", kind, len(rules)))
+	}})
+	// (connect-rules-at-the-upstream-proxy, Engine S) a client CONNECT relayed through an upstream HTTP proxy: the
+	// CONNECT that proxy receives carries the client's fields with the --connect-header rules applied to them in
+	// order - once. Wired exactly as command/run wires them (request modifier + GetProxyConnectHeader).
+	connRules := []string{"X-Conn: 1", "-X-Conn", "X-Conn;", "%x-conn", "X-Other: o"}
+	s.Add(explore.Scenario{Name: "connect-rules-at-the-upstream-proxy", Remote: true, Run: func(x *explore.X) {
+		world.Run(t, x, func() {
+			n := x.ChooseFree("rules", 3)
+			var list []string
+			for i := 0; i < n; i++ {
+				list = append(list, connRules[x.ChooseFree(fmt.Sprintf("rule%d", i), len(connRules))])
+			}
+			clientField := x.ChooseFree("client-sends-x-conn", 2) == 1
+			c := &command{httpProxyConfig: forwarder.DefaultHTTPProxyConfig(), kerberosConfig: &forwarder.KerberosConfig{}}
+			var ref []refRule
+			for _, r := range list {
+				h, err := header.ParseHeader(r)
+				if err != nil {
+					x.Failf("harness/rule", "%q: %v", r, err)
+					return
+				}
+				c.connectHeaders = append(c.connectHeaders, h)
+				v := ""
+				if h.Value != nil {
+					v = *h.Value
+				}
+				ref = append(ref, refRule{h.Action, h.Name, v})
+			}
+			c.configureHeadersModifiers()
+			w, err := world.Start(world.Options{Upstream: "http://up.test:8080", Tweak: func(cfg *forwarder.HTTPProxyConfig, tcfg *forwarder.HTTPTransportConfig) {
+				cfg.RequestModifiers = c.httpProxyConfig.RequestModifiers
+				cfg.ResponseModifiers = c.httpProxyConfig.ResponseModifiers
+			}, TweakTransport: func(tr *http.Transport) { c.configureTransportProxy(tr, nil) }})
+			if err != nil {
+				x.Failf("harness/start", "%v", err)
+				return
+			}
+			up, _ := w.Hop("up.test:8080", nil)
+			cl, _ := w.Client()
+			head := "CONNECT origin.test:443 HTTP/1.1\r\nHost: origin.test:443\r\n"
+			sent := http.Header{}
+			if clientField {
+				head += "X-Conn: 0\r\n"
+				sent["X-Conn"] = []string{"0"}
+			}
+			cl.Send([]byte(head + "\r\n"))
+			world.Settle(time.Second)
+			msgs, conns, _ := up.Next()
+			x.Check()
+			if len(msgs) != 1 || msgs[0].Method != "CONNECT" {
+				x.Failf("connect-rules/not-forwarded", "rules %q: the upstream proxy received %d requests; client got %q", list, len(msgs), world.Clip(cl.Recv()))
+			} else {
+				got := http.Header{}
+				for _, f := range msgs[0].Fields {
+					if l := strings.ToLower(f.Name); l == "x-conn" || l == "x-other" {
+						got[f.Name] = append(got[f.Name], f.Value)
+					}
+				}
+				want := refFrom(sent)
+				for _, r := range ref {
+					want.apply(r)
+				}
+				if d := want.compare(got, ""); d != "" {
+					x.Failf("connect-rules/at-the-upstream-proxy", "--connect-header %q, client sent X-Conn: %v: the CONNECT received by the upstream proxy: %s (fields %v)", list, clientField, d, got)
+				}
+				up.Conns[conns[0]].Send([]byte("HTTP/1.1 200 OK\r\n\r\n"))
+			}
+			x.Outcome(fmt.Sprintf("%d/%v", n, clientField))
+			cl.Close()
+			if err := w.Stop(); err != nil {
+				x.Failf("shutdown", "%v", err)
+			}
+			up.Shutdown()
+			world.Settle(5 * time.Second)
+			if l := world.Leaks(); l != "" {
+				x.Failf("goroutine-leak", "%s", l)
+			}
+		})
 	}})
 	s.Main()
 }
